@@ -25,7 +25,7 @@ func c13Scenarios(tier string) []*Scenario {
 			x.Vals["sink"] = s
 			x.Cleanup = append(x.Cleanup, s.close)
 			x.Vals["tmin"] = rt.NowNanos()
-			r, err := m3.NewReporter(m3.Options{HostPorts: []string{s.addr}, Service: "svc", Env: "test", CommonTags: map[string]string{"ck": "cv"}, Protocol: m3Proto(kind), MaxQueueSize: 1})
+			r, err := m3.NewReporter(m3.Options{HostPorts: []string{s.addr}, Service: "svc", Env: "test", CommonTags: c13CommonTags(0), Protocol: m3Proto(kind), MaxQueueSize: 1})
 			if err != nil {
 				x.failf("new-reporter", "%v", err)
 				return
@@ -95,7 +95,7 @@ func c13Scenarios(tier string) []*Scenario {
 			x.Vals["sink"] = s
 			x.Cleanup = append(x.Cleanup, s.close)
 			x.Vals["tmin"] = rt.NowNanos()
-			r, err := m3.NewReporter(m3.Options{HostPorts: []string{s.addr}, Service: "svc", Env: "test", CommonTags: map[string]string{"ck": "cv"}, Protocol: m3Proto(kind), MaxQueueSize: 8})
+			r, err := m3.NewReporter(m3.Options{HostPorts: []string{s.addr}, Service: "svc", Env: "test", CommonTags: c13CommonTags(0), Protocol: m3Proto(kind), MaxQueueSize: 8})
 			if err != nil {
 				x.failf("new-reporter", "%v", err)
 				return
